@@ -166,8 +166,7 @@ theorem C16_rank_inverse (r : Ranking) (h : RInv r) (k : Nat) (hk : k < r.scores
     ∃ id, r.getCompetitor k = some id ∧ r.getRank id = .ok k := by
   refine ⟨r.scores[k].1, ?_, getRank_ok r h k hk⟩
   unfold getCompetitor
-  have : ¬ ((k : Int) < 0 ∨ (k : Int) ≥ r.scores.length) := by omega
-  simp [this, hk]
+  simp [hk]
 
 /-- … and `GetCompetitor(GetRank(id)) = id` for every listed competitor; an unlisted one has no rank. -/
 theorem C16_rank_inverse' (r : Ranking) (h : RInv r) (id : Int) :
@@ -186,8 +185,7 @@ theorem C16_rank_inverse' (r : Ranking) (h : RInv r) (id : Int) :
     rw [hid] at h1
     refine ⟨p, h1, ?_⟩
     unfold getCompetitor
-    have : ¬ ((p : Int) < 0 ∨ (p : Int) ≥ r.scores.length) := by omega
-    simp [this, hp, hid]
+    simp [hp, hid]
 
 /-- **`C16_rank_search_terminates`** — in every reachable state no method runs out of fuel (the Go loop
 of `GetRank` cannot spin: the tie scan always finds the competitor) and no slice index is out of range. -/
@@ -198,5 +196,139 @@ theorem C16_rank_search_terminates (r : Ranking) (h : RInv r) (id s : Int) :
   · rcases C16_rank_inverse' r h id with ⟨k, hk, _⟩ | ⟨hk, _⟩ <;> rw [hk] <;> exact ⟨by simp, by simp⟩
   · obtain ⟨r', es, h1, _⟩ := competitor_refines r h id s; exact ⟨r', es, h1⟩
   · obtain ⟨r', es, h1, _⟩ := remove_refines r h id; exact ⟨r', es, h1⟩
+
+end MV.Props.C16
+
+namespace MV.Props.C16
+open MV.Model MV.Model.Ranking MV.Spec MV.Spec.Leaderboard
+
+/-! ## scores and the membership rule of the size limit (statements about the abstract board, which the
+model refines by `C16_rank_refines`/`C16_rank_step`) -/
+
+theorem getElem_insertAt_self (l : List (Int × Int)) (p : Nat) (x : Int × Int) (hp : p ≤ l.length) :
+    (insertAt l p x)[p]'(by rw [length_insertAt _ _ _ hp]; omega) = x := by
+  unfold insertAt
+  rw [List.getElem_append_right (by simp; omega)]
+  simp [Nat.min_eq_left hp]
+
+/-- an already listed competitor always stays listed, with the score it submitted last -/
+theorem C16_rank_update_listed (b : Board) (id s v : Int) (h : scoreOf b.l id = some v) :
+    scoreOf (submit b id s).l id = some s := by
+  unfold submit
+  rw [h]
+  dsimp only
+  by_cases he : v = s
+  · rw [if_pos he, h, he]
+  · rw [if_neg he]
+    show scoreOf (insertAt _ _ _) id = _
+    rw [scoreOf_insertAt _ _ _ _ (by rw [scoreOf_eraseId]; simp)]
+    simp
+
+/-- **membership rule of the cap** for a newcomer: refused (board unchanged) exactly when the board is full
+and the score does not strictly beat the last entry; otherwise listed with its score. -/
+theorem C16_rank_membership (b : Board) (hg : Good b) (id s : Int) (h : scoreOf b.l id = none) :
+    (refuses b s = true → submit b id s = b) ∧
+      (refuses b s = false → scoreOf (submit b id s).l id = some s) := by
+  unfold submit
+  rw [h]
+  dsimp only
+  constructor
+  · intro hr; rw [if_pos hr]
+  · intro hr
+    have hr' : ¬ refuses b s = true := by rw [hr]; simp
+    rw [if_neg hr']
+    dsimp only
+    have hpos := pos_isPos hg.1 s
+    have hN := nodupIds_insertAt hg.2.1 id s (pos b.asc b.l s) h
+    have hL := length_insertAt b.l (pos b.asc b.l s) (id, s) hpos.1
+    have hins : scoreOf (insertAt b.l (pos b.asc b.l s) (id, s)) id = some s := by
+      rw [scoreOf_insertAt _ _ _ _ h]; simp
+    by_cases hc : b.cap > 0 ∧ ((insertAt b.l (pos b.asc b.l s) (id, s)).length : Int) > b.cap
+    · rw [if_pos hc]
+      have hlen0 : 0 < (insertAt b.l (pos b.asc b.l s) (id, s)).length := by omega
+      rw [dropLast_eq_eraseId hN hlen0, scoreOf_eraseId, hins]
+      -- the dropped entry is not the newcomer: the newcomer sits at `pos < len`
+      have hfull : b.cap > 0 ∧ (b.l.length : Int) ≥ b.cap := by omega
+      have hposlt : pos b.asc b.l s < b.l.length := by
+        apply Nat.lt_of_le_of_ne hpos.1
+        intro e
+        -- full and `pos = len` ⇒ the newcomer does not beat the last entry ⇒ refused
+        apply hr'
+        unfold refuses
+        dsimp only
+        have hlt : b.l.length - 1 < b.l.length := by omega
+        have : decide (b.cap > 0 ∧ (b.l.length : Int) ≥ b.cap) = true := by simp [hfull]
+        rw [this, List.getLast?_eq_getElem?, List.getElem?_eq_getElem hlt]
+        dsimp only
+        have := hpos.2.1 (b.l.length - 1) hlt (by omega)
+        have : ¬ rcmp b.asc s (b.l[b.l.length - 1]).2 > 0 := by
+          intro hh; have := (rcmp_pos _ _ _).mp hh; omega
+        simp [this]
+      have hself := getElem_insertAt_self b.l (pos b.asc b.l s) (id, s) hpos.1
+      have hne : ¬ id = ((insertAt b.l (pos b.asc b.l s) (id, s))[(insertAt b.l (pos b.asc b.l s) (id, s)).length - 1]'(by omega)).1 := by
+        intro e
+        have := nodup_idx hN (pos b.asc b.l s) ((insertAt b.l (pos b.asc b.l s) (id, s)).length - 1)
+          (by omega) (by omega) (by rw [hself]; exact e)
+        omega
+      simp [hne]
+    · rw [if_neg hc]; exact hins
+
+/-- a submission never changes the score of another competitor that is still listed afterwards -/
+theorem C16_rank_others_unchanged (b : Board) (hg : Good b) (id s id' v' : Int) (hne : id' ≠ id)
+    (h : scoreOf (submit b id s).l id' = some v') : scoreOf b.l id' = some v' := by
+  unfold submit at h
+  cases hv : scoreOf b.l id with
+  | some v =>
+    rw [hv] at h
+    dsimp only at h
+    by_cases he : v = s
+    · rw [if_pos he] at h; exact h
+    · rw [if_neg he] at h
+      change scoreOf (insertAt _ _ _) id' = _ at h
+      rw [scoreOf_insertAt _ _ _ _ (by rw [scoreOf_eraseId]; simp), if_neg hne, scoreOf_eraseId, if_neg hne] at h
+      exact h
+  | none =>
+    rw [hv] at h
+    dsimp only at h
+    by_cases hr : refuses b s = true
+    · rw [if_pos hr] at h; exact h
+    · rw [if_neg hr] at h
+      dsimp only at h
+      have hpos := pos_isPos hg.1 s
+      have hN := nodupIds_insertAt hg.2.1 id s (pos b.asc b.l s) hv
+      have hL := length_insertAt b.l (pos b.asc b.l s) (id, s) hpos.1
+      by_cases hc : b.cap > 0 ∧ ((insertAt b.l (pos b.asc b.l s) (id, s)).length : Int) > b.cap
+      · rw [if_pos hc] at h
+        have hlen0 : 0 < (insertAt b.l (pos b.asc b.l s) (id, s)).length := by omega
+        rw [dropLast_eq_eraseId hN hlen0, scoreOf_eraseId] at h
+        split at h
+        · cases h
+        · rw [scoreOf_insertAt _ _ _ _ hv, if_neg hne] at h; exact h
+      · rw [if_neg hc] at h
+        rw [scoreOf_insertAt _ _ _ _ hv, if_neg hne] at h; exact h
+
+/-- **`C16_absent_total` (leaderboard)** — operations on a competitor that is not listed are total no-ops
+(in every reachable state): `RemoveCompetitor` changes nothing and fires no event, `GetRank` / `GetScore`
+answer `ErrNotExistCompetitor`. -/
+theorem C16_absent_total_rank (r : Ranking) (id : Int) (h : r.comp.get id = none) :
+    Ranking.step r (.remove id) = (r, .rows []) ∧ Ranking.step r (.rank id) = (r, .err 1) ∧
+      Ranking.step r (.score id) = (r, .err 1) := by
+  refine ⟨?_, ?_, ?_⟩
+  · simp [Ranking.step, Ranking.remove, h]
+  · simp [Ranking.step, getRank_absent r id h]
+  · simp [Ranking.step, Ranking.getScore, h]
+
+/-! ## non-vacuity: the hypotheses are met and the conclusions are not trivially true -/
+
+example : Ranking.run (Ranking.new false (some 2))
+    [.competitor 1 5, .competitor 2 5, .competitor 3 7, .dump, .rank 2, .competitor 2 9, .all, .size, .competitor 4 7, .dump] =
+    [.rows [[1, -1, 0, 0, 5]], .rows [[2, -1, 1, 0, 5]], .rows [[3, -1, 0, 0, 7], [2, 2, -1, 5, 5]],
+     .rows [[3, 7], [1, 5]], .err 1, .rows [[2, -1, 0, 0, 9], [1, 2, -1, 5, 5]], .ints [2, 3], .int 2,
+     .rows [], .rows [[2, 9], [3, 7]]] := by decide
+
+/-- without the invariant the rank search really can spin: a stale index entry makes the tie scan fail
+for ever (the model answers `hang`) — the invariant is what `C16_rank_search_terminates` needs -/
+example : Ranking.getRank { asc := false, cap := 3, comp := [(9, 5)], scores := [(1, 5), (2, 5)] } 9 = .hang := by
+  decide
 
 end MV.Props.C16
